@@ -289,6 +289,21 @@ def check_dictionary(acc, case):
     for k, v in ALLU.items():
         if k not in d2 or not close(L.cplx.numpy(d2[k]), v, 1e-15):
             acc.viol("dictionary:user-added-unitary", dict(case), observed=d2.get(k), expected=v, detail=dict(letter=k))
+    # user matrices given as nested lists / numpy arrays (real-pair layout [re, im]) are converted
+    for name, v in R.CUSTOM_U.items():
+        pair = np.stack([v.real, v.imag])
+        for form, val in (("list", pair.tolist()), ("numpy", pair), ("float32-tensor", torch.tensor(pair, dtype=torch.float32))):
+            acc.ev(1)
+            try:
+                d3 = call(L.unitaries.create_dict, **{name: val})
+            except Exception as e:  # noqa: BLE001
+                acc.count("dictionary-input-form-refused")
+                continue
+            # lists go through torch.tensor(), i.e. torch's default (single) precision: rounding to 1e-7 is
+            # what that conversion means and is not held against the library
+            tol_ = 1e-15 if form == "numpy" else 1e-6
+            if d3[name].dtype != torch.double or not close(L.cplx.numpy(d3[name]), v, tol_, at=tol_) or set(d3) != {"X", "Y", "Z", name}:
+                acc.viol("dictionary:user-added-unitary", dict(case, form=form), observed=d3[name], expected=v, detail=dict(letter=name, form=form))
     acc.outcome("dictionary")
 
 
